@@ -5,6 +5,14 @@ root = os.path.dirname(os.path.dirname(os.path.abspath(__file__)))
 ALL = ["C%02d" % i for i in range(1, 21)]
 # id -> (technique, level text, level note, design_ref)
 BUILT = {
+ "C09": ("explicit-state exploration of the format state machine x -> F(x) -> F2 -> F3 with --check at each stage over an exhaustively enumerated file space, on the real processFile; layout predicate; CLI conformance replay",
+         "All files of <=3/4 lines over 31 line kinds (blank/space/TAB lines, comments, entries with leading/trailing blanks, every directive in normal and odd spacing, markers, header lines, upper-case class) x LF/CRLF x final newline x header present/absent/without blank, plus empty and white-space-only files: idempotence over three applications, --check never writes (content, inode, mtime), --check succeeds iff format is the identity (modulo the upper-case lint), canonical layout of every successful output.",
+         "In-process processFile validated against the real CLI on the complete <=2-line space; layout predicate states only what the property states.",
+         "DESIGN.md §3 C09"),
+ "C10": ("exhaustive enumeration of the format file space plus directive look-alikes; per file the real formatter's output is compared as white-space-free line sequence and by the set of generate outcomes under deviation-bounded map schedules",
+         "All files of <=2/3 lines over 54 line kinds (C09's plus comments that look like directives, extra arguments, glued keywords, stray markers, upper-case/unsupported flags) x variants: format must preserve the line sequence modulo white space/added header/trailing blanks and generate must give the same set of outcomes (regex bytes or failure) before and after, over every map order with <=1 deviation.",
+         "'Same failure' means fails before and after; diagnostics not compared.",
+         "DESIGN.md §3 C10"),
  "C08": ("explicit-state BFS over all orders of single-file CLI invocations (state = processed set + whole tree + reports) compared with the state after one --all run, for an exhaustively enumerated family of CRS trees",
          "All ordered selections of <=2/3 of 11 file archetypes (shared stored name, unstored use, shared definition name, undefined reference, flags/prefix/suffix, open block, chain link, same-id chain link, include helper, include with leaking definition) form a tree; for update, compare and format every order of single invocations is explored with the real CLI and must reach one terminal state equal to the --all state; compare reports equal as multisets; a file failing alone must make --all fail.",
          "For trees with a failing file update --all may be all-or-nothing or equal to the single invocations (both readings accepted).",
